@@ -1,5 +1,5 @@
 """C17 - Tag, enumeration and bit-mask names form a stable bijection (spec/Registry.tla)."""
-import json, os
+import json, re, os
 import vlib
 
 
@@ -41,7 +41,7 @@ def run(ctx):
         if x.get("summary"):
             continue
         c = x["c"]
-        p0 = x["problems"][0].split("-to-")[0] if c["kind"].startswith("name-") else x["problems"][0]
+        p0 = x["problems"][0].split("-to-")[0] if c["kind"].startswith("name-") else re.sub(r"gives-0x[0-9a-f]+", "gives-another-value", x["problems"][0])
         sig = "%s:%s:%s" % (c["kind"], "registered" if (c["name"] if c["kind"] == "tag" else c["vname"]) else "unregistered", p0.split(":")[0] + ":" + (p0.split(":")[1] if ":" in p0 else ""))
         ctx.violation(sig, "%s tag=0x%06X name=%r value=%s vname=%r: %s" % (c["kind"], c["tag"], c["name"], c["value"], c["vname"], x["problems"][:3]), x)
     # the registry while it changes: RegistryDyn.tla histories (registrations of vendor extensions interleaved with lookups and writes)
